@@ -5,7 +5,7 @@ sys.path.insert(0, os.path.dirname(os.path.abspath(__file__)))
 import mutants, extract
 for name in sys.argv[1:]:
     d = None
-    for base in ("/verif/benign/", "/verif/seeded/"):
+    for base in ("/verif/benign/", "/verif/seeded/", "/verif/additive_twins/", "/verif/benign_limits/"):
         if os.path.exists(base + name + "/patch.diff"):
             d = base + name
     root = "/tmp/df_repo_" + name
